@@ -96,11 +96,15 @@ def _params(fam):
     if fam.startswith("poly"):
         d = int(fam[4:])
         return st.lists(st.one_of(st.floats(-3, 3), st.integers(-3, 3).map(float)), min_size=d + 1, max_size=d + 1).filter(lambda c: c[-1] != 0.0)
+    # widths down to a few per cent of a bin width: a density much narrower than a bin is where a fixed-order rule in place of the documented
+    # adaptive integration goes wrong (seeded change C13-c); run() discards what is narrower than 0.025 of the widest bin (measured: quad is
+    # within 1 % of the tolerance down to 0.02, and loses peaks below 0.01)
+    _width = st.one_of(st.floats(0.3, 3.0), st.floats(0.03, 0.3))
     if fam == "normal":
-        return st.tuples(st.floats(-3, 3), st.floats(0.3, 3.0)).map(list)
+        return st.tuples(st.floats(-3, 3), _width).map(list)
     if fam == "expo":
-        return st.tuples(st.floats(0.3, 5.0)).map(list)
-    return st.tuples(st.floats(-3, 3), st.floats(0.3, 3.0), st.floats(0.05, 0.95)).map(list)
+        return st.tuples(st.one_of(st.floats(0.3, 5.0), st.floats(0.05, 0.3))).map(list)
+    return st.tuples(st.floats(-3, 3), _width, st.floats(0.05, 0.95)).map(list)
 
 
 def _edges():
@@ -121,6 +125,7 @@ def strategy(tier):
             "family": st.just(f), "params": _params(f), "params2": _params(f), "edges": _edges(), "edges2": _edges(),
             "method": st.sampled_from(METHODS), "density": st.booleans(),
             "via": st.sampled_from(["model", "model", "fit"]),
+            "passing": st.sampled_from(["fresh", "fresh", "same_list", "same_array"]),
             "n_fill": st.integers(1, 40), "n_out": st.integers(0, 5),
             "then": st.lists(st.sampled_from(["set_params", "rebin", "replace_data_same_shape", "replace_data"]), max_size=3),
         })
@@ -226,6 +231,19 @@ def compare(tag, got, fam, p, edges, method, factor=1.0):
                         f"expected {factor * want[i]!r} (+-{abs(factor) * tol[i] if np.ndim(tol) else abs(factor) * tol:.3g}), factor N={factor}")
 
 
+def _check_width(fam, p, edges, method, labels):
+    if fam.startswith("poly"):
+        return
+    w = p[0] if fam == "expo" else p[1]
+    ratio = w / float(np.max(np.diff(edges)))
+    if ratio < 0.1:
+        labels.add("density_narrower_than_0.1_bin")
+    if method.lower() == "numerical" and ratio < 0.025:
+        raise Discard("numerical integration of a density narrower than 0.025 bin widths (quad itself is not reliable there)")
+    if fam == "expo" and abs(edges[0]) / w > 600:
+        raise Discard("exponential overflows at the lower edge")
+
+
 def run(case):
     fam = case["family"]
     f, F = FAMILIES[fam]
@@ -234,6 +252,8 @@ def run(case):
     if min(np.diff(edges)) < 1e-3:
         raise Discard("narrow bin")
     method = case["method"]
+    passing = case.get("passing", "fresh")
+    buf = None
     dens = bool(case["density"])
     labels = set()
     if len(set(np.round(np.diff(edges), 12))) > 1:
@@ -241,9 +261,14 @@ def run(case):
     if fam.startswith("poly") and int(fam[4:]) >= 2:
         labels.add("poly_deg>=2")
     model_mod = _k("kafe2.fit.histogram.model")
+    _check_width(fam, p, edges, method, labels)
+    if passing == "same_list":
+        buf = list(p)
+    elif passing == "same_array":
+        buf = np.array(p, float)
     if case["via"] == "model":
         with guard("construct"):
-            m = model_mod.HistParametricModel(len(edges) - 1, (edges[0], edges[-1]), f, list(p), bin_edges=list(edges),
+            m = model_mod.HistParametricModel(len(edges) - 1, (edges[0], edges[-1]), f, buf if buf is not None else list(p), bin_edges=list(edges),
                                               bin_evaluation=_bin_eval_arg(method, fam), density=dens)
         with guard("read"):
             got = m.data
@@ -255,13 +280,21 @@ def run(case):
         for step in case["then"]:
             if step == "set_params":
                 p = [float(v) for v in case["params2"]]
+                _check_width(fam, p, edges, method, labels)
                 with guard("set-parameters"):
-                    m.parameters = list(p)
+                    if buf is not None:
+                        # the caller keeps one parameter buffer, updates it in place and assigns it again (a scan loop)
+                        buf[:] = p
+                        m.parameters = buf
+                        labels.add("parameter_buffer_reused_in_place")
+                    else:
+                        m.parameters = list(p)
                 labels.add("reread_after_parameter_change")
             elif step == "rebin":
                 edges = [float(x) for x in case["edges2"]]
                 if min(np.diff(edges)) < 1e-3:
                     break
+                _check_width(fam, p, edges, method, labels)
                 with guard("rebin"):
                     m.rebin(list(edges))
                 labels.add("reread_after_rebin")
@@ -283,7 +316,7 @@ def run(case):
         hc, N = container(edges)
         with guard("construct"):
             fit = kafe2.HistFit(hc, f, bin_evaluation=_bin_eval_arg(method, fam), density=dens)
-            fit.set_all_parameter_values(list(p))
+            fit.set_all_parameter_values(buf if buf is not None else list(p))
         with guard("read"):
             got = fit.model
         compare("HistFit.model", got, fam, p, edges, method, factor=float(N) if dens else 1.0)
@@ -294,8 +327,14 @@ def run(case):
         for step in case["then"]:
             if step == "set_params":
                 p = [float(v) for v in case["params2"]]
+                _check_width(fam, p, edges, method, labels)
                 with guard("set-parameters"):
-                    fit.set_all_parameter_values(list(p))
+                    if buf is not None:
+                        buf[:] = p
+                        fit.set_all_parameter_values(buf)
+                        labels.add("parameter_buffer_reused_in_place")
+                    else:
+                        fit.set_all_parameter_values(list(p))
                 labels.add("reread_after_parameter_change")
             elif step in ("replace_data", "replace_data_same_shape"):
                 if step == "replace_data_same_shape":
@@ -310,6 +349,7 @@ def run(case):
                     edges = [float(x) for x in case["edges2"]]
                 if min(np.diff(edges)) < 1e-3:
                     break
+                _check_width(fam, p, edges, method, labels)
                 hc, N = container(edges)
                 with guard("data-replacement"):
                     fit.data = hc
